@@ -143,3 +143,62 @@ pub fn verif_depfile(mut bytes: Vec<u8>) -> String {
     }
     out
 }
+
+// C12 (engine K): depfile leaf scanners from a symbolic start offset, real memory semantics
+#[cfg(kani)]
+mod verif_kani {
+    use super::*;
+
+    fn fmt_stub(_args: std::fmt::Arguments<'_>) -> String {
+        String::new()
+    }
+
+    fn sym_buf<const M: usize>() -> [u8; M] {
+        let mut buf: [u8; M] = kani::any();
+        buf[M - 1] = 0;
+        buf
+    }
+
+    fn rests_ok(buf: &[u8], ofs: usize) -> bool {
+        !(ofs > 0 && buf[ofs] == b'\n' && buf[ofs - 1] == b'\r')
+    }
+
+    #[kani::proof]
+    #[kani::unwind(12)]
+    #[kani::stub(std::fmt::format, fmt_stub)]
+    pub fn o_skip_spaces_8() {
+        let buf = sym_buf::<9>();
+        let mut s = Scanner::new(&buf);
+        let ofs: usize = kani::any();
+        kani::assume(ofs < 9);
+        kani::assume(rests_ok(&buf, ofs));
+        s.ofs = ofs;
+        let r = skip_spaces(&mut s);
+        if r.is_ok() {
+            assert!(s.ofs < 9);
+        }
+        kani::cover!(r.is_ok() && s.ofs > ofs);
+        std::mem::forget(r);
+    }
+
+    #[kani::proof]
+    #[kani::unwind(12)]
+    #[kani::stub(std::fmt::format, fmt_stub)]
+    pub fn o_read_path_8() {
+        let buf = sym_buf::<9>();
+        let mut s = Scanner::new(&buf);
+        let ofs: usize = kani::any();
+        kani::assume(ofs < 9);
+        kani::assume(rests_ok(&buf, ofs));
+        s.ofs = ofs;
+        let r = read_path(&mut s);
+        if let Ok(p) = &r {
+            assert!(s.ofs < 9);
+            if let Some(p) = p {
+                assert!(p.len() >= 1 && p.len() <= 8);
+            }
+        }
+        kani::cover!(matches!(r, Ok(Some(_))));
+        std::mem::forget(r);
+    }
+}
